@@ -98,82 +98,88 @@ class C16(Prop):
         ops = []
         # the script is generated against the real object (names in use change along the way)
         sc2 = copy.deepcopy(sc)
+        from ..framework import CaseTimeout
         for _ in range(rnd.randint(10, 40)):
-            names = sc2.states
-            if not names:
-                break
-
-            def pick():
-                return rnd.choice(names + ['nope']) if rnd.random() < 0.15 else rnd.choice(names)
-            k = rnd.choice(['add_state', 'remove_state', 'rename_state', 'move_state', 'add_transition',
-                            'remove_transition', 'rotate_transition', 'rotate_transition', 'validate'])
-            if k == 'add_state':
-                kind = rnd.choice(list(KINDS))
-                nm = rnd.choice(names) if rnd.random() < 0.12 else g.fresh()
-                js = {'name': nm, 'kind': kind, 'initial': None, 'memory': None}
-                if kind == 'compound' and rnd.random() < 0.3:
-                    js['initial'] = pick()
-                if kind in ('shallow', 'deep') and rnd.random() < 0.5:
-                    js['memory'] = pick()
-                op = [k, js, None if rnd.random() < 0.05 else pick()]
-            elif k == 'remove_state':
-                n = pick()
-                if n == sc2.root and rnd.random() < 0.9:
-                    continue
-                op = [k, n]
-            elif k == 'rename_state':
-                op = [k, pick(), rnd.choice(names + [g.fresh(), g.fresh(), g.fresh()])]
-            elif k == 'move_state':
-                op = [k, pick(), pick()]
-            elif k == 'add_transition':
-                op = [k, {'id': 0, 'source': pick(), 'target': rnd.choice([None, pick(), pick()] + ([''] if rnd.random() < 0.25 else [])),
-                          'event': rnd.choice([None, 'e', 'f']), 'guard': None, 'action': None,
-                          'priority': rnd.choice([0, 0, 1, -1, 5])}]
-                if sc2.transitions and rnd.random() < 0.3:
-                    # a look-alike of a transition that is there: same ends and event, another priority or guard
-                    t0 = rnd.choice(sc2.transitions)
-                    j0 = copy.deepcopy(ChartEnc(sc2).json['transitions'][ChartEnc(sc2).tid(t0)])
-                    c = rnd.random()
-                    if c < 0.4:
-                        j0['priority'] = rnd.choice([p for p in (-1, 0, 1, 2, 5) if p != j0.get('priority', 0)])
-                    elif c < 0.7:
-                        j0['guard'] = enc_code(rnd.choice(['x > 1', 'x < 5', 'v0']), 'eval')[0]
-                    else:
-                        # … or nothing but another contract
-                        kind = rnd.choice(['pre', 'post', 'inv'])
-                        j0[kind] = list(j0.get(kind, [])) + [enc_code(rnd.choice(['x >= 0', 'x + 1 > x', 'y >= 0']), 'eval')[0]]
-                    op = [k, j0]
-            elif k == 'remove_transition':
-                ts = sc2.transitions
-                if ts and rnd.random() < 0.85:
-                    t = rnd.choice(ts)
-                    op = [k, ChartEnc(sc2).json['transitions'][ChartEnc(sc2).tid(t)]]
-                    if rnd.random() < 0.15:
-                        # a transition that is not registered: it differs from a registered one in a contract only
-                        j0 = copy.deepcopy(op[1])
-                        kind = rnd.choice(['pre', 'post', 'inv'])
-                        if j0.get(kind) and rnd.random() < 0.5:
-                            j0[kind] = list(j0[kind])[:-1]
-                        else:
-                            j0[kind] = list(j0.get(kind, [])) + [enc_code('x * 2 >= x', 'eval')[0]]
-                        op = [k, j0]
-                else:
-                    op = [k, {'id': 0, 'source': pick(), 'target': None, 'event': 'never', 'guard': None,
-                              'action': None, 'priority': 0}]
-            elif k == 'rotate_transition':
-                ts = sc2.transitions
-                i = rnd.randrange(len(ts)) if ts and rnd.random() < 0.9 else None
-                src = pick() if rnd.random() < 0.65 else None
-                r = rnd.random()
-                tgt = '<keep>' if r < 0.35 else (None if r < 0.5 else pick())
-                op = [k, i, src, tgt]
-            else:
-                op = [k]
-            ops.append(op)
             try:
-                apply_op(sc2, op)
-            except (StatechartError, ValueError):
-                pass
+                names = sc2.states
+                if not names:
+                    break
+
+                def pick():
+                    return rnd.choice(names + ['nope']) if rnd.random() < 0.15 else rnd.choice(names)
+                k = rnd.choice(['add_state', 'remove_state', 'rename_state', 'move_state', 'add_transition',
+                                'remove_transition', 'rotate_transition', 'rotate_transition', 'validate'])
+                if k == 'add_state':
+                    kind = rnd.choice(list(KINDS))
+                    nm = rnd.choice(names) if rnd.random() < 0.12 else g.fresh()
+                    js = {'name': nm, 'kind': kind, 'initial': None, 'memory': None}
+                    if kind == 'compound' and rnd.random() < 0.3:
+                        js['initial'] = pick()
+                    if kind in ('shallow', 'deep') and rnd.random() < 0.5:
+                        js['memory'] = pick()
+                    op = [k, js, None if rnd.random() < 0.05 else pick()]
+                elif k == 'remove_state':
+                    n = pick()
+                    if n == sc2.root and rnd.random() < 0.9:
+                        continue
+                    op = [k, n]
+                elif k == 'rename_state':
+                    op = [k, pick(), rnd.choice(names + [g.fresh(), g.fresh(), g.fresh()])]
+                elif k == 'move_state':
+                    op = [k, pick(), pick()]
+                elif k == 'add_transition':
+                    op = [k, {'id': 0, 'source': pick(), 'target': rnd.choice([None, pick(), pick()] + ([''] if rnd.random() < 0.25 else [])),
+                              'event': rnd.choice([None, 'e', 'f']), 'guard': None, 'action': None,
+                              'priority': rnd.choice([0, 0, 1, -1, 5])}]
+                    if sc2.transitions and rnd.random() < 0.3:
+                        # a look-alike of a transition that is there: same ends and event, another priority or guard
+                        t0 = rnd.choice(sc2.transitions)
+                        j0 = copy.deepcopy(ChartEnc(sc2).json['transitions'][ChartEnc(sc2).tid(t0)])
+                        c = rnd.random()
+                        if c < 0.4:
+                            j0['priority'] = rnd.choice([p for p in (-1, 0, 1, 2, 5) if p != j0.get('priority', 0)])
+                        elif c < 0.7:
+                            j0['guard'] = enc_code(rnd.choice(['x > 1', 'x < 5', 'v0']), 'eval')[0]
+                        else:
+                            # … or nothing but another contract
+                            kind = rnd.choice(['pre', 'post', 'inv'])
+                            j0[kind] = list(j0.get(kind, [])) + [enc_code(rnd.choice(['x >= 0', 'x + 1 > x', 'y >= 0']), 'eval')[0]]
+                        op = [k, j0]
+                elif k == 'remove_transition':
+                    ts = sc2.transitions
+                    if ts and rnd.random() < 0.85:
+                        t = rnd.choice(ts)
+                        op = [k, ChartEnc(sc2).json['transitions'][ChartEnc(sc2).tid(t)]]
+                        if rnd.random() < 0.15:
+                            # a transition that is not registered: it differs from a registered one in a contract only
+                            j0 = copy.deepcopy(op[1])
+                            kind = rnd.choice(['pre', 'post', 'inv'])
+                            if j0.get(kind) and rnd.random() < 0.5:
+                                j0[kind] = list(j0[kind])[:-1]
+                            else:
+                                j0[kind] = list(j0.get(kind, [])) + [enc_code('x * 2 >= x', 'eval')[0]]
+                            op = [k, j0]
+                    else:
+                        op = [k, {'id': 0, 'source': pick(), 'target': None, 'event': 'never', 'guard': None,
+                                  'action': None, 'priority': 0}]
+                elif k == 'rotate_transition':
+                    ts = sc2.transitions
+                    i = rnd.randrange(len(ts)) if ts and rnd.random() < 0.9 else None
+                    src = pick() if rnd.random() < 0.65 else None
+                    r = rnd.random()
+                    tgt = '<keep>' if r < 0.35 else (None if r < 0.5 else pick())
+                    op = [k, i, src, tgt]
+                else:
+                    op = [k]
+                ops.append(op)
+                try:
+                    apply_op(sc2, op)
+                except (StatechartError, ValueError):
+                    pass
+            except CaseTimeout:
+                # the object the script is generated against does not answer any more (the script so far made it
+                # loop): the script so far is the case — running it reports the hang with this input as replay
+                break
         payload = {'kind': 'edit', 'chart': enc.json, 'ops': ops}
         return Case(payload, {'chart': sc}, model_ok=True)
 
